@@ -206,3 +206,59 @@ pub fn c09_script(r: &mut Rng, index: u64, _tier: Tier) -> (CaseCfg, Vec<Step>) 
     }
     (cfg, s)
 }
+
+/// C10 workload: the application sits in poll() all the time; packets, PINGRESPs and
+/// application publishes are placed at chosen instants around the keep-alive deadlines.
+pub fn c10_script(r: &mut Rng, _index: u64, _tier: Tier) -> (CaseCfg, Vec<Step>) {
+    use crate::refcodec::SPacket;
+    let ka = *r.pick(&[0u16, 1, 2, 3, 9, 10, 11, 60, 65535]);
+    let over: Option<u16> = *r.pick(&[None, None, None, Some(0u16), Some(1), Some(5), Some(30), Some(65535)]);
+    let cfg = CaseCfg { rx: 128, tx: 512, keepalive: ka, ..CaseCfg::default() };
+    let eff = over.unwrap_or(ka) as u64 * 1_000_000;
+    let lead = 5_000_000u64.min(eff / 2);
+    let interval = eff.saturating_sub(lead);
+    let ping = match r.below(8) {
+        0 | 1 | 2 => AckMode::Immediate,
+        3 => AckMode::Never,
+        4 => AckMode::Delay(*r.pick(&[4_999_999u64, 5_000_000, 5_000_001])),
+        5 => AckMode::Delay(1 + r.below(4_000_000) as u64),
+        6 => AckMode::Delay(if eff > 2 { eff / 2 + r.below(3) as u64 - 1 } else { 1 }),
+        _ => AckMode::Delay(*r.pick(&[1u64, 1000, 2_500_000, 6_000_000])),
+    };
+    let mut props = vec![];
+    if let Some(o) = over {
+        props.push(Prop::ServerKeepAlive(o));
+    }
+    let mut s = vec![Step::Connect(ConnectSpec {
+        policy: IoPolicy::default(),
+        faults: vec![],
+        connack: ConnackSpec::Normal { sp: SpMode::Force(false), reason: 0, props },
+        broker: BrokerPolicy { acks: AckMode::Immediate, ping, fail_pct: 0, longform_pct: 0 },
+        cancel_at: None,
+    })];
+    let base = if eff == 0 { 10_000_000 } else { eff.min(100_000_000) };
+    for i in 0..r.range(4, 10) {
+        let wait = match r.below(9) {
+            0 => interval.saturating_sub(1),
+            1 => interval,
+            2 => interval + 1,
+            3 => eff,
+            4 => eff + 1,
+            5 => 3 * base,
+            6 => 1 + r.below(base as usize) as u64,
+            7 => 20_000_000,
+            _ => 1 + r.below(2 * base as usize + 10) as u64,
+        };
+        s.push(Step::Poll { max_wait: wait.max(1), cancel_at: None });
+        match r.below(6) {
+            0 => s.push(Step::Publish(PubSpec { topic: "k".into(), payload: PayloadSpec::Fill { len: 2, tag: i as u32, ascii: false }, qos: 0, retain: false, props: vec![], correlate: None, cancel_at: None })),
+            1 => s.push(Step::Publish(PubSpec { topic: "k".into(), payload: PayloadSpec::Fill { len: 2, tag: i as u32, ascii: false }, qos: 1, retain: false, props: vec![], correlate: None, cancel_at: None })),
+            2 => s.push(Step::Broker(BrokerAct::Send(SPacket::Publish { dup: false, qos: 0, retain: false, topic: "in".into(), pid: None, props: vec![], payload: vec![1] }))),
+            3 => s.push(Step::Broker(BrokerAct::Send(SPacket::Publish { dup: false, qos: 1, retain: false, topic: "in".into(), pid: Some(1 + i as u16), props: vec![], payload: vec![1] }))),
+            _ => {}
+        }
+    }
+    s.push(Step::Poll { max_wait: 3 * base + 6_000_000, cancel_at: None });
+    s.push(Step::Poll { max_wait: 1, cancel_at: None });
+    (cfg, s)
+}
